@@ -103,6 +103,16 @@ func EvLogon(rel int, abs int, reset string) *Event {
 	return e
 }
 
+// EvPipelined: first arrives with second already buffered behind it (second numbered relative to T at arrival).
+func EvPipelined(first, second *Event) *Event {
+	return &Event{K: "in", Name: first.Name + "+pipelined:" + second.Name, In: first.In, Behind: second.In}
+}
+
+// EvInOrigSame: a PossDup message whose OrigSendingTime equals its SendingTime.
+func EvInOrigSame(typ string, rel int, body ...fixscan.Field) *Event {
+	return &Event{K: "in", Name: fmt.Sprintf("in(%s@%s,PossDup,122=52)", typ, relName(rel)), In: &In{Type: typ, Rel: rel, OrigSame: true, Body: body}}
+}
+
 func EvRestart() *Event { return &Event{K: "restart", Name: "restart"} }
 
 func EvTick() *Event { return &Event{K: "tick", Name: "tick"} }
